@@ -117,7 +117,7 @@ Theorem packed_read_eq_spec_pixel :
   forall lg lr lb la mg mr mb ma tg tr tb ta g r b a w res n k rest,
   table_of lg mg tg g -> table_of lr mr tr r -> table_of lb mb tb b -> table_of la ma ta a ->
   length lr = 256%nat -> length lb = 256%nat -> length la = 256%nat ->
-  mg + mr + mb + ma < 6 -> 0 <= w ->
+  mg + mr + mb + ma <= 6 -> 0 <= w ->
   packed_read (packed_build g r b a) w = (res, n) -> (Z.to_nat n <= k)%nat ->
   spec_read_pixel tg tr tb ta (put_bits k w ++ rest) = Ok (res, put_bits (k - Z.to_nat n) (w / 2 ^ n) ++ rest).
 Proof.
